@@ -163,7 +163,7 @@ Definition sh_dec (c : cev) : option Sh.ev :=
   | O f c a b =>
       option_map (Sh.EOp (n f))
         match n c with
-        | 1 => Some Sh.OLockX | 2 => Some Sh.OTryX | 3 => Some (Sh.OUnlockX true (n a))
+        | 1 => Some Sh.OLockX | 2 => Some Sh.OTryX | 3 => Some (Sh.OUnlockX (Nat.eqb (n b) 0) (n a))
         | 4 => Some (Sh.OTimedX (Dur (n a))) | 5 => Some (Sh.OTimedX (Abs (n a)))
         | 11 => Some Sh.OLockS | 12 => Some Sh.OTryS | 13 => Some (Sh.OUnlockS (n a))
         | 14 => Some (Sh.OTimedS (Dur (n a))) | 15 => Some (Sh.OTimedS (Abs (n a)))
